@@ -640,15 +640,66 @@ func (g *gen) miniHistory(depth int) []string {
 	return toks
 }
 
+// exhaustive enumerates every history of the given depth over a small alphabet of table operations.
+func (g *gen) exhaustive(r *lib.Run, depth int) {
+	a, b := macs[0], macs[1]
+	ipA, ipB := ip4s[0], ip4s[1]
+	zmac := net.HardwareAddr{0, 0, 0, 0, 0, 0}
+	alpha := []string{
+		"p:" + lib.Hex(lib.MkEther(bcastMAC, a, 0x0806, lib.MkARP(1, a, ipA, zmac, ipB))),
+		"p:" + lib.Hex(lib.MkEther(bcastMAC, b, 0x0806, lib.MkARP(1, b, ipA, zmac, ipB))), // same address, other MAC
+		"p:" + lib.Hex(lib.MkEther(bcastMAC, a, 0x0806, lib.MkARP(2, a, ipB, zmac, ipA))), // same MAC, other address
+		"x:" + ipKey(ipA),
+		"o:" + ipKey(ipA),
+		"o:" + ipKey(ipB),
+		"q",
+	}
+	idx := make([]int, depth)
+	for {
+		toks := []string{"165", "0"}
+		for _, i := range idx {
+			toks = append(toks, alpha[i])
+		}
+		r.Do("h", toks...)
+		r.Stat("class.exhaustive", 1)
+		k := depth - 1
+		for k >= 0 {
+			idx[k]++
+			if idx[k] < len(alpha) {
+				break
+			}
+			idx[k] = 0
+			k--
+		}
+		if k < 0 {
+			return
+		}
+	}
+}
+
 func generate(r *lib.Run) {
 	g := &gen{rng: r.Rand()}
-	scale := 1
+	scale := 2
 	if r.Thorough() {
-		scale = 12
+		scale = 40
+		for d := 1; d <= 4; d++ {
+			g.exhaustive(r, d)
+		}
+	} else {
+		g.exhaustive(r, 2)
 	}
-	for i := 0; i < 300*scale; i++ {
+	for i := 0; i < 150*scale; i++ {
 		r.Do("h", g.miniHistory(1+g.rng.Intn(4))...)
 		r.Stat("class.mini", 1)
+	}
+	// one or two operations of every handler: short enough for the in-kernel replay of the model
+	for i := 0; i < 60*scale; i++ {
+		w := [8]int{0, 0, 0, 3, 3, 3, 1, 1}
+		if g.rng.Chance(30) {
+			w = [8]int{2, 1, 0, 2, 2, 2, 0, 0}
+		}
+		r.Do("h", g.history(1+g.rng.Intn(2), w)...)
+		r.Stat("class.minihandler", 1)
 	}
 	classes := []struct {
 		name  string
@@ -656,12 +707,12 @@ func generate(r *lib.Run) {
 		depth int
 		w     [8]int
 	}{
-		{"tables", 150, 40, [8]int{80, 20, 0, 0, 0, 0, 0, 0}},
-		{"dhcp", 120, 30, [8]int{20, 15, 65, 0, 0, 0, 0, 0}},
-		{"ra", 80, 25, [8]int{25, 15, 0, 60, 0, 0, 0, 0}},
-		{"dns", 80, 25, [8]int{20, 10, 0, 0, 70, 0, 0, 0}},
-		{"names", 120, 30, [8]int{25, 15, 0, 0, 0, 35, 15, 10}},
-		{"mixed", 150, 45, [8]int{25, 12, 25, 8, 8, 12, 5, 5}},
+		{"tables", 75, 40, [8]int{80, 20, 0, 0, 0, 0, 0, 0}},
+		{"dhcp", 60, 30, [8]int{20, 15, 65, 0, 0, 0, 0, 0}},
+		{"ra", 40, 25, [8]int{25, 15, 0, 60, 0, 0, 0, 0}},
+		{"dns", 40, 25, [8]int{20, 10, 0, 0, 70, 0, 0, 0}},
+		{"names", 60, 30, [8]int{25, 15, 0, 0, 0, 35, 15, 10}},
+		{"mixed", 75, 45, [8]int{25, 12, 25, 8, 8, 12, 5, 5}},
 	}
 	for _, c := range classes {
 		for i := 0; i < c.n*scale; i++ {
